@@ -144,6 +144,7 @@ type FnCtx struct {
 	qctr         int
 	spawned      []string
 	ownT         []modTarget
+	implT        map[string][]modTarget
 	peelAlt      map[string]string
 	unsafeVals   map[string]bool
 	inPanicExit  bool
